@@ -10,4 +10,5 @@ let () =
       | Some (b, line) -> Printf.sprintf "%s@%d" (hex b) (int_of_nat line)
       | None -> "~" in
     Printf.printf "frame %d prev=%s added=%s updated=%s esc=%s unesc=%s\n" idx prev
-      (hex (add_entry id v file)) (hex (update_entry id v file)) (hex (escape v)) (hex (unescape v)))
+      (if prev = "~" then hex (add_entry id v file) else "~")
+      (if prev = "~" then "~" else hex (update_entry id v file)) (hex (escape v)) (hex (unescape v)))
